@@ -235,5 +235,8 @@ def check(ctx):
                 rdefs = reaching_assignments(prog, hcall, rv, s) if rv.isidentifier() else []
                 okc = c0 in (f"({rv} < np.cumsum(self.prob))", f"({rv} <= np.cumsum(self.prob))") and any("np.random.rand" in canon(d) for d in rdefs)
     ctx.check(okc, hcall, ch[0] if ch else hcall.node, "strategy chosen by inverse CDF: first index with u < cumsum(prob), u ~ U(0,1)", "the strategy is not drawn by inverse CDF on cumsum(prob) with a uniform draw", construct="hedge choice")
+    from . import meshflow
+
+    meshflow.report(ctx, "R6", lambda fn, e, R: e == meshflow.SRCH_E)
     ctx.assume("np.argsort sorts ascending; np.argmin returns the first minimiser")
     ctx.assume("ini constants hedge_gamma and the length of search_method are the shipped portfolio")
